@@ -104,7 +104,11 @@ func content(c storage.VerifCodecContent, full bool) map[string]interface{} {
 		m["hl"], m["hr"], m["ls"], m["rs"] = c.HasLSib, c.HasRSib, u64(c.LSib), u64(c.RSib)
 		cells := make([]interface{}, 0, len(c.Cells))
 		for _, x := range c.Cells {
-			cells = append(cells, []interface{}{u64(uint64(x.Key)), x.Deleted, int(x.ValueSize), len(x.Value), valRepr(x.Value, full)})
+			repr := valRepr(x.Value, full)
+			if x.Value == nil && x.ValueLen > 0 {
+				repr = fmt.Sprintf("oversize/%d", x.ValueLen) // longer than a page: not copied, not hashed
+			}
+			cells = append(cells, []interface{}{u64(uint64(x.Key)), x.Deleted, int(x.ValueSize), x.ValueLen, repr})
 		}
 		m["cells"] = cells
 	} else {
@@ -513,6 +517,7 @@ func random(req request) result {
 	res := result{OK: true, Shapes: map[string]int{}}
 	written := map[uint64]storage.VerifCodecContent{}
 	var pages []uint64
+	stop := false
 	for i := 1; i <= req.N; i++ {
 		op := rng.Intn(10)
 		switch {
@@ -554,6 +559,9 @@ func random(req request) result {
 			}
 			written[p] = c
 			emit(ev)
+			if ev["err"] != "" || ev["rt"] != ev["node"] {
+				stop = true // the trace is complete as evidence: this event cannot be a step of the specification
+			}
 		case op < 5:
 			st.Close()
 			st, err = storage.VerifCodecOpen(path)
@@ -578,8 +586,16 @@ func random(req request) result {
 			}
 			ev["flen"] = fileLen(path)
 			emit(ev)
+			if ev["err"] != "" || ev["node"] != digest(written[p]) {
+				stop = true
+			}
 		}
 		res.Events = i
+		if stop {
+			// Nothing is decided here: TLC rejects the trace at this event. Going on would only decode more
+			// pages with garbage length fields (allocations of gigabytes per cell).
+			break
+		}
 	}
 	return res
 }
